@@ -219,7 +219,7 @@ def run_case(case):
             viol.append({"monitor": "either-or", "mech": f"retry-raises:{type(e).__name__}", "msg": f"second L.backward() raised {type(e).__name__}"})
     except Exception as e:
         outcome = "other:" + type(e).__name__
-        viol.append({"monitor": "either-or", "mech": f"final-backward-raises:{type(e).__name__}",
+        viol.append({"monitor": "either-or", "mech": f"final-backward-raises:{type(e).__name__}", "earlier_refusal": "backward!" in events,
                      "msg": f"final backward raised {type(e).__name__} (neither InvalidBackprop nor a result) after events {events}"})
     if cleared:
         cnt["partially_cleared"] = 1
@@ -249,6 +249,11 @@ def classify(v, case):
     m = v.get("mech") or v["monitor"]
     if m.startswith("silent-wrong-gradient") and v.get("defeated"):
         return "reuse-refills-consumers"
-    if m == "retry-raises:AssertionError" and any(st.get("fn") == "einsum" for st in case.get("prog", [])):
+    has_einsum = any(st.get("fn") == "einsum" for st in case.get("prog", []))
+    if m == "retry-raises:AssertionError" and has_einsum:
+        return "retry-after-refusal-einsum-cache"
+    if m == "final-backward-raises:AssertionError" and has_einsum and v.get("earlier_refusal"):
+        # same mechanism: an EARLIER backward() in the history was (correctly) refused half-way through a graph that shares the
+        # einsum operation with L, leaving that operation's backward cache consumed
         return "retry-after-refusal-einsum-cache"
     return m
